@@ -455,13 +455,14 @@ func genWorld(t *rapid.T) *world {
 	pick := func(label string) *node {
 		return linkable[rapid.IntRange(0, len(linkable)-1).Draw(t, label)]
 	}
-	nMent := rapid.IntRange(0, 2).Draw(t, "nMentions")
+	nMent := rapid.IntRange(0, 3).Draw(t, "nMentions")
+	var mentionNodes []*node
 	for i := 0; i < nMent; i++ {
 		m := pick("mentioned")
 		name := fmt.Sprintf("M%d", i)
 		msalt := g.salt*4 + uint64(i) // distinct bytes for two mentions of the same kind and ref
 		var n *node
-		switch rapid.SampledFrom([]string{"text", "json", "symlink", "wrongfield", "attr", "claimsfield"}).Draw(t, "mentionKind") {
+		switch rapid.SampledFrom([]string{"text", "json", "symlink", "wrongfield", "wrongfield", "attr", "claimsfield"}).Draw(t, "mentionKind") {
 		case "text":
 			n = w.add(&node{Name: name, Kind: "mention/text", data: []byte(fmt.Sprintf("%016x note to self: the secret is in %s, do not tell", msalt, m.ref))})
 		case "json": // JSON, not a schema blob
@@ -499,6 +500,7 @@ func genWorld(t *rapid.T) *world {
 		}
 		n.Mentions = append(n.Mentions, m.Name)
 		linkable = append(linkable, n)
+		mentionNodes = append(mentionNodes, n)
 	}
 	if dangling != nil {
 		linkable = append(linkable, dangling)
@@ -515,13 +517,19 @@ func genWorld(t *rapid.T) *world {
 		if rapid.IntRange(0, 9).Draw(t, "searchShare") == 0 {
 			si.Search = true
 		} else {
-			// bias towards the interesting roots (directory, file), but any blob incl. an earlier share
-			cands := append([]*node{}, linkable...)
-			cands = append(cands, claims...)
-			if d, ok := w.byName["D"]; ok {
-				cands = append(cands, d, d, d)
+			// what the share points at: the interesting roots (directory, file), a blob that merely
+			// mentions refs (the chain through it must stop there), or any blob incl. an earlier claim
+			var cands []*node
+			switch k := rapid.IntRange(0, 9).Draw(t, "targetKind"); {
+			case k <= 2 && w.byName["D"] != nil:
+				cands = []*node{w.get("D")}
+			case k <= 4:
+				cands = []*node{F}
+			case k <= 7 && len(mentionNodes) > 0:
+				cands = mentionNodes
+			default:
+				cands = append(append([]*node{}, linkable...), claims...)
 			}
-			cands = append(cands, F, F)
 			si.Target = cands[rapid.IntRange(0, len(cands)-1).Draw(t, "target")].Name
 		}
 		claims = append(claims, g.share(fmt.Sprintf("share%d", i), si, rapid.IntRange(0, 4).Draw(t, "secondSigner") == 0))
